@@ -52,6 +52,14 @@ theorem written_pictures_read_back (cs : List VC2.Model.FileFormat.Dim) (ps : Li
     VC2.Model.FileFormat.readPicture cs (VC2.Model.FileFormat.writePicture cs ps) = ps :=
   VC2.Props.C23.picture_round_trip cs ps h
 
+/-- **a located explanation**: the offset in the report is the error's own offending offset whenever
+    the error has one — also when that offset is 0 (an error in the very first parse_info) — and the
+    reader's position only when it has none -/
+theorem report_names_the_offending_offset (tell : Nat) :
+    (∀ o, reportedOffset (some o) tell = o) ∧ reportedOffset (some 0) tell = 0 ∧ reportedOffset none tell = tell :=
+  ⟨fun _ => rfl, rfl, rfl⟩
+
+example : reportedOffset (some 0) 152 = 0 ∧ reportedOffset none 152 = 152 := by decide
 example : (runCallbacks [7, 8, 4]).written = [(0, 7), (1, 8), (2, 4)] := by decide
 example : exitStatus .otherException = 3 ∧ exitStatus .cannotOpen = 1 := by decide
 
